@@ -14,11 +14,11 @@ cp /repo/Cargo.lock "$WT/"
 DEMO=$(ls "$SRC"/demo_*.rs | head -1); DN=$(basename "$DEMO" .rs)
 mkdir -p "$WT/tests"; cp "$DEMO" "$WT/tests/$DN.rs"
 cd "$WT"
-cargo test --offline --test "$DN" >/tmp/vseed/$ID.clean.log 2>&1; CLEAN=$?
+cargo test --offline ${FEATURES:+--features $FEATURES} --test "$DN" >/tmp/vseed/$ID.clean.log 2>&1; CLEAN=$?
 if ! git apply "$SRC/patch.diff"; then echo "$ID: PATCH DOES NOT APPLY"; cd /; git -C /repo worktree remove --force "$WT"; exit 1; fi
 cargo test --offline --lib >/tmp/vseed/$ID.unit.log 2>&1; UNIT=$?
 cargo test --offline --doc >/tmp/vseed/$ID.doc.log 2>&1; DOC=$?
-cargo test --offline --test "$DN" >/tmp/vseed/$ID.mut.log 2>&1; MUT=$?
+cargo test --offline ${FEATURES:+--features $FEATURES} --test "$DN" >/tmp/vseed/$ID.mut.log 2>&1; MUT=$?
 UNITN=$(grep -E "^test result" /tmp/vseed/$ID.unit.log | head -1)
 DOCN=$(grep -E "^test result" /tmp/vseed/$ID.doc.log | head -1)
 echo "$ID: demo on unchanged tree exit=$CLEAN (want 0); unit: $UNITN; doc: $DOCN; demo with change exit=$MUT (want != 0)"
